@@ -355,7 +355,7 @@ func runC12(c *Ctx, r *Rec) {
 	for _, name := range sortedKeys(sms) {
 		checkLoops(c, r, "D6-loop-progress", sms[name], exempt)
 	}
-	r.floor("D6-loop-progress", 1)
+	r.floorSoft("D6-loop-progress", "loops", "no loop is left in the methods this rule looks at")
 	checkWholeRemainder(c, r, "D4-whole-remainder", st)
 	checkCursorOnlyByMatcher(c, r, "D4-cursor-moves", st)
 	checkFreshParseState(c, r, "D7-fresh-parse-state", parser)
